@@ -3,10 +3,11 @@ package main
 import (
 	"fmt"
 	"os"
+	"strconv"
 )
 
 func usage() {
-	fmt.Fprintln(os.Stderr, "usage: harness dump <dir> | ops <family> <seed> <n> <opsfile> <gofile> | ...")
+	fmt.Fprintln(os.Stderr, "usage: harness dump <dir> | ops <family> <seed> <n> <tier> <opsfile> <gofile> <statsfile>")
 	os.Exit(2)
 }
 
@@ -20,6 +21,44 @@ func main() {
 			usage()
 		}
 		dumpLean(os.Args[2])
+	case "ops":
+		if len(os.Args) < 9 {
+			usage()
+		}
+		family := os.Args[2]
+		seed, _ := strconv.ParseUint(os.Args[3], 10, 64)
+		n, _ := strconv.Atoi(os.Args[4])
+		tier := os.Args[5]
+		o := NewOut(os.Args[6], os.Args[7])
+		corpus := os.Getenv("VERIF_CORPUS")
+		if corpus == "" {
+			corpus = "/verif/corpus"
+		}
+		switch family {
+		case "chess":
+			chessOps(o, seed, n, tier, corpus+"/fens.txt")
+		case "attacks":
+			attOps(o, NewRng(seed), n)
+			stride := 53
+			if tier == "thorough" {
+				stride = 1
+			}
+			sliderTableOps(o, stride)
+		default:
+			usage()
+		}
+		o.Close(os.Args[8])
+	case "exec":
+		// exec <opsfile> <gofile>: run the given operation lines (replay / corpus of past failures)
+		if len(os.Args) < 4 {
+			usage()
+		}
+		o := NewOut(os.Args[2]+".echo", os.Args[3])
+		for _, l := range readLines(os.Args[2]) {
+			o.Run(l)
+		}
+		o.Close("")
+		os.Remove(os.Args[2] + ".echo")
 	default:
 		usage()
 	}
